@@ -1,8 +1,8 @@
 SPECIFICATION Spec
 CONSTANTS
   SingleClasses = {"empty", "zero", "neg1", "one", "typical", "huge", "nonnum", "float", "inf", "wrongsep", "brokenlist"}
-  PairClasses = {"zero", "neg1", "typical", "huge", "nonnum"}
-  PairTails = {"mpd", "vnum", "anum", "vtime", "subs_media"}
+  PairClasses = {"zero", "neg1", "one", "typical", "huge", "nonnum", "float", "inf"}
+  PairTails = {"mpd", "vnum", "anum", "vtime", "subs_media", "bu_in"}
   PatchClasses = {"empty", "zero", "neg1", "one", "typical", "huge", "nonnum", "float", "inf", "wrongsep", "brokenlist"}
   LLTails = {"mpd", "init", "vnum", "anum", "vnum_lt", "num_huge", "vtime", "atime", "bu_in", "subs_media"}
 INVARIANTS TypeOK Sane Emit
